@@ -79,53 +79,76 @@ Qed.
 Section Str.
   Variable ps : pset.
   Let F := fmt ps.
-  Definition Gs (m : string * list (frame (A := string))) : list (node * list string) * string :=
-    (rev (snd m), fst m).
+  Definition sstate := (string * list (node * list string))%type.
+  (* the model's state (string, stack with the top first) as the Python state (string, stack with the top last) *)
+  Definition Gs (m : string * list (frame (A := string))) : sstate := (fst m, rev (snd m)).
 
   Section While.
-    Variable cond : list (node * list string) * string -> option bool.
-    Variable body : list (node * list string) * string -> option (ctl * (list (node * list string) * string)).
-    Hypothesis cond_spec : forall st cur p a, cond (rev st ++ [(p, a)], cur) = Some (arity_matches (List.length a) p).
-    Hypothesis body_spec : forall st cur p a, arity_matches (List.length a) p = true ->
-      body (rev st ++ [(p, a)], cur) =
-      Some (match st with
-            | [] => (Break, ([], F p a))
-            | (p2, a2) :: st2 => (Next, (rev st2 ++ [(p2, a2 ++ [F p a])], F p a))
-            end).
+    Variable cond : sstate -> option bool.
+    Variable body : sstate -> option (ctl * sstate).
+    (* one round of the while loop: test, then body *)
+    Definition iter (s : sstate) : option (ctl * sstate) :=
+      match cond s with Some true => body s | Some false => Some (Break, s) | None => None end.
+    Lemma while_iter fuel s :
+      while_ (S fuel) cond body s =
+      match iter s with Some (Next, s') => while_ fuel cond body s' | Some (Break, s') => Some s' | None => None end.
+    Proof. unfold iter. cbn [while_]. destruct (cond s) as [[|]|]; reflexivity. Qed.
 
-    Lemma while_unwind : forall rest fuel cur p a, List.length rest < fuel ->
-      while_ fuel cond body (rev rest ++ [(p, a)], cur) = Some (Gs (unwind F cur p a rest)).
+    (* [e]: how the loop is left when the stack has run empty -- by a break, or by one more test *)
+    Variable e : ctl.
+    Hypothesis e_spec : e = Break \/ forall cur, iter (cur, []) = Some (Break, (cur, [])).
+    Hypothesis iter_spec : forall st cur p a,
+      iter (cur, rev st ++ [(p, a)]) =
+      Some (if arity_matches (List.length a) p
+            then match st with
+                 | [] => (e, (F p a, []))
+                 | (p2, a2) :: st2 => (Next, (F p a, rev st2 ++ [(p2, a2 ++ [F p a])]))
+                 end
+            else (Break, (cur, rev st ++ [(p, a)]))).
+
+    Lemma while_unwind : forall rest fuel cur p a, S (List.length rest) < fuel ->
+      while_ fuel cond body (cur, rev rest ++ [(p, a)]) = Some (Gs (unwind F cur p a rest)).
     Proof.
       induction rest as [|[p2 a2] rest IH]; intros fuel cur p a Hf; (destruct fuel as [|f]; [inversion Hf|]);
-        cbn [while_]; rewrite cond_spec; cbn [unwind];
+        rewrite while_iter, iter_spec; cbn [unwind];
         destruct (arity_matches (List.length a) p) eqn:E; try reflexivity.
-      - rewrite (body_spec [] cur p a E). reflexivity.
-      - rewrite (body_spec ((p2, a2) :: rest) cur p a E). apply IH. cbn in Hf. lia.
+      - destruct e.
+        + destruct f as [|f']; [cbn in Hf; lia|]. rewrite while_iter.
+          destruct e_spec as [He|He]; [discriminate|]. now rewrite He.
+        + reflexivity.
+      - apply IH. cbn in Hf. lia.
     Qed.
   End While.
 End Str.
+
+Ltac str_inner ps e :=
+  match goal with |- context [while_ _ ?C ?B _] =>
+    assert (He : e = Break \/ forall cur, iter C B (cur, []) = Some (Break, (cur, [])))
+      by (first [left; reflexivity | right; intros; unfold iter; mrun; reflexivity]);
+    assert (Hit : forall st cur p a,
+      iter C B (cur, rev st ++ [(p, a)]) =
+      Some (if arity_matches (List.length a) p
+            then match st with
+                 | [] => (e, (fmt ps p a, []))
+                 | (p2, a2) :: st2 => (Next, (fmt ps p a, rev st2 ++ [(p2, a2 ++ [fmt ps p a])]))
+                 end
+            else (Break, (cur, rev st ++ [(p, a)]))))
+      by (intros st0 cur0 p a; unfold iter; mrun;
+          destruct (arity_matches (List.length a) p) eqn:E; mrun; try reflexivity;
+          rewrite ?(gen_format_eq ps p a E); mrun;
+          destruct st0 as [|[p2 a2] st2]; mrun; reflexivity);
+    rewrite (while_unwind ps C B e He Hit)
+      by (rewrite app_length, rev_length; cbn [List.length]; rewrite Nat.add_1_r; apply Nat.lt_succ_diag_r)
+  end.
 
 Ltac str_script ps :=
   cbv zeta;
   match goal with |- bind (for_ _ ?body _) _ = _ =>
     assert (Hb : forall x m, body x (Gs m) = Some (Next, Gs (step (fmt ps) m x)));
     [ intros x [cur st]; unfold Gs, step; cbn [fst snd];
-      match goal with |- context [while_ _ ?C ?B _] =>
-        assert (Hc : forall st cur p a, C (rev st ++ [(p, a)], cur) = Some (arity_matches (List.length a) p))
-          by (intros; mrun; reflexivity);
-        assert (Hbs : forall st cur p a, arity_matches (List.length a) p = true ->
-                  B (rev st ++ [(p, a)], cur) =
-                  Some (match st with
-                        | [] => (Break, ([], fmt ps p a))
-                        | (p2, a2) :: st2 => (Next, (rev st2 ++ [(p2, a2 ++ [fmt ps p a])], fmt ps p a))
-                        end))
-          by (intros st0 cur0 p a E; mrun; rewrite (gen_format_eq ps p a E); mrun;
-              destruct st0 as [|[p2 a2] st2]; mrun; reflexivity);
-        rewrite (while_unwind ps C B Hc Hbs st _ cur x [])
-          by (rewrite app_length, rev_length; cbn; apply Nat.lt_succ_r, Nat.le_add_r)
-      end;
+      first [ str_inner ps Break | str_inner ps Next ];
       reflexivity
-    | change (@nil (node * list string), "") with (Gs ("", []));
+    | change ("", @nil (node * list string)) with (Gs ("", []));
       rewrite (for_sim Gs _ _ Hb); reflexivity ]
   end.
 
@@ -218,7 +241,7 @@ Proof.
   first [ reflexivity
         | cbv zeta; rewrite gen_str_eq; mrun; unfold code_of;
           destruct (ps_arguments ps) as [|a l];
-          [ reflexivity | cbn [List.length Nat.ltb Nat.leb]; rewrite ?map_id; reflexivity ] ].
+          [ reflexivity | cbn [List.length Nat.ltb Nat.leb Nat.eqb negb]; rewrite ?app_assoc_s, ?map_id; reflexivity ] ].
 Qed.
 
 (* what the model's compile does with that string: the tree's printed form is parsed as the body, the
